@@ -73,7 +73,7 @@ func (e *Enc) buildQuery(pre []string, o *Obligation, model bool) string {
 func (e *Enc) buildQueryX(pre []string, o *Obligation, model bool, light bool) string {
 	var sb strings.Builder
 	sb.WriteString(smtPrelude)
-	sb.WriteString("(declare-const wm0 (_ BitVec 64))\n(assert (bvult #x0000000000000000 wm0))\n")
+	sb.WriteString("(declare-const wm0 (_ BitVec 64))\n(assert (bvult #x0000000000000000 wm0))\n(assert (bvult wm0 #x0001000000000000))\n")
 	for _, c := range pre {
 		sb.WriteString(c)
 		sb.WriteByte('\n')
@@ -270,27 +270,40 @@ func (f *Frame) frameObligations(ct *Contract, final *State, rg Term, top string
 	e := f.e
 	env := f.baseEnv(f.entry)
 	modAll := false
-	var modRegs []Term   // slice regions allowed to change (element heaps)
-	var modObjs []Term   // objects whose fields may change
+	var modRegs []Term // slice regions allowed to change (element heaps)
+	var modObjs []Term // objects whose fields may change
+	modFields := map[string][]Term{}
 	for _, m := range ct.Modifies {
 		if m == "*" {
 			modAll = true
 			continue
 		}
-		cl, err := parseClause(m)
+		ts, err := env.modTargets(m)
 		if err != nil {
 			e.specError(fmt.Sprintf("%s modifies %q: %v", ct.Key, m, err))
 			continue
 		}
-		v, err := env.eval(cl.Expr)
-		if err != nil {
-			e.specError(fmt.Sprintf("%s modifies %q: %v", ct.Key, m, err))
-			continue
-		}
-		if v.T.Sort == SSlice {
-			modRegs = append(modRegs, sReg(v.T))
-		} else {
-			modObjs = append(modObjs, v.T)
+		for _, t := range ts {
+			switch {
+			case t.heap != "":
+				modFields[t.heap] = append(modFields[t.heap], *t.obj)
+			case t.region != nil:
+				modRegs = append(modRegs, *t.region)
+			default:
+				modObjs = append(modObjs, *t.obj)
+				// embedded array fields of the object live in the element heap
+				if t.typ != nil {
+					if pt, ok := t.typ.Underlying().(*types.Pointer); ok {
+						if st, ok := pt.Elem().Underlying().(*types.Struct); ok {
+							for i := 0; i < st.NumFields(); i++ {
+								if _, isArr := st.Field(i).Type().Underlying().(*types.Array); isArr {
+									modRegs = append(modRegs, e.fieldRegion(pt.Elem(), i, *t.obj))
+								}
+							}
+						}
+					}
+				}
+			}
 		}
 	}
 	if modAll {
@@ -321,6 +334,9 @@ func (f *Frame) frameObligations(ct *Contract, final *State, rg Term, top string
 			lst = modRegs
 		}
 		for _, r := range lst {
+			allowed = append(allowed, eq(qv, r))
+		}
+		for _, r := range modFields[k] {
 			allowed = append(allowed, eq(qv, r))
 		}
 		goal := Term{S: fmt.Sprintf("(forall ((%s (_ BitVec 64))) %s)", q, or(append(allowed, eq(sel(cur, qv), sel(init, qv)))...).S), Sort: SBool}
